@@ -247,6 +247,17 @@ func (c *Check) contextFieldRules(prefix string, which map[string]bool) {
 		}
 		// counts
 		if which["counts"] {
+			// opening a batch (the counter advances) resets the whole batch bookkeeping in the same stored value
+			if _, opens := w.W["BatchCounter"]; opens && !zeroHeight {
+				var missing []string
+				for _, fld := range []string{"BatchState", "BatchRequestCount", "BatchResponseCount", "BatchResponseThreshold"} {
+					if _, ok := w.W[fld]; !ok {
+						missing = append(missing, fld)
+					}
+				}
+				put(prefix+".counts", unitConstruct(w.Fn, "batch-open-resets"), len(missing) == 0,
+					"a stored value that advances BatchCounter also sets BatchState, BatchRequestCount, BatchResponseCount and BatchResponseThreshold"+condStr(len(missing) > 0, "; not set: "+strings.Join(missing, ", ")), pos)
+			}
 			if v, ok := w.W["BatchRequestCount"]; ok && !zeroHeight && w.Fn != pff {
 				counts["counts"]++
 				_, issue := w.W["BatchCounter"]
